@@ -466,14 +466,24 @@ func checkMarkdown(exp []xElem, md string) error {
 			leadingWhite = true
 		}
 	}
+	jumpy := false
+	for _, e := range exp {
+		if e.Jumpy {
+			jumpy = true
+		}
+	}
 	gotTok := dedupAdjacentRuns(tokensOf(md), exp)
 	if strings.Join(gotTok, " ") != strings.Join(wantTok, " ") {
 		return fmt.Errorf("token sequence differs:\n got  %v\n want %v", gotTok, wantTok)
 	}
-	if leadingWhite {
-		// A paragraph that starts with a tab or several blanks is an indented
+	if leadingWhite || jumpy {
+		// (a) A paragraph that starts with a tab or several blanks is an indented
 		// code block (or changes list-item structure) in Markdown; whether and
 		// how to avoid that is a rendering decision the statement leaves open.
+		// (b) A run of list items that starts below the top level or skips a
+		// level has no Markdown representation at all (an item can only be one
+		// level deeper than its parent; deeper indentation is a code block or
+		// continuation text).
 		// Only the token order is demanded for such documents.
 		return nil
 	}
@@ -509,12 +519,10 @@ func checkMarkdown(exp []xElem, md string) error {
 				return fmt.Errorf("block %d: heading %q has level %d, authored level %d", i, norm(g.Text), g.Level, e.Level)
 			}
 		case "item":
-			// a run of items that skips levels has no Markdown representation
-			// (a list item can only be one level deeper than its parent)
-			if !e.Jumpy && g.Level != e.Depth {
+			if g.Level != e.Depth {
 				return fmt.Errorf("block %d: list item %q has depth %d, authored depth %d", i, norm(g.Text), g.Level, e.Depth)
 			}
-			if !e.Jumpy && g.Ordered != e.Ordered {
+			if g.Ordered != e.Ordered {
 				return fmt.Errorf("block %d: list item %q ordered=%v, authored ordered=%v", i, norm(g.Text), g.Ordered, e.Ordered)
 			}
 		case "table":
